@@ -439,7 +439,19 @@ def make_module(I):
         return st.alloc(NdE(shape, [Fraction(1)] * size(shape)))
 
     reg("ones", ones)
-    reg("dot", lambda I, st, a, b: dot(I, st, a, b))
+
+    def arange(I, st, *a, dtype=None):
+        """np.arange(stop) / np.arange(start, stop) with concrete ints (step 1): ints, or floats with dtype=float"""
+        if len(a) not in (1, 2) or not all(isinstance(x, int) and not isinstance(x, bool) for x in a):
+            raise Unsupported("np.arange with non-integer / symbolic arguments or a step")
+        isfloat = isinstance(dtype, BuiltinClass) and dtype.name == "float"
+        if dtype is not None and not isfloat and not (isinstance(dtype, BuiltinClass) and dtype.name == "int"):
+            raise Unsupported("np.arange dtype")
+        vals = list(range(*a))
+        return st.alloc(NdE((len(vals),), [Fraction(v) if isfloat else v for v in vals]))
+
+    reg("arange", arange)
+    reg("dot",lambda I, st, a, b: dot(I, st, a, b))
 
     def elementwise(fn):
         def f(I, st, a, k):
